@@ -38,6 +38,27 @@ Section Generator.
     | Draw q k => Draw q (fun d => bindP (k d) f)
     end.
 
+  (* the draws a program makes from state s, in order, and the generator state before
+     every draw followed by the state left behind: what the harness records around
+     EVERY np.random.* call of a run, not only the first *)
+  Fixpoint record {R} (p : prog R) (s : S) : list D :=
+    match p with
+    | Ret _ => []
+    | Draw q k => let '(d, s') := draw q s in d :: record (k d) s'
+    end.
+  Fixpoint trace {R} (p : prog R) (s : S) : list S :=
+    match p with
+    | Ret _ => [s]
+    | Draw q k => let '(d, s') := draw q s in s :: trace (k d) s'
+    end.
+  (* the program run on a RECORDED list of draws - the form in which the C01-C03
+     models consume randomness (None: the list is shorter than the program needs) *)
+  Fixpoint replay {R} (p : prog R) (ds : list D) : option R :=
+    match p with
+    | Ret r => Some r
+    | Draw q k => match ds with [] => None | d :: r => replay (k d) r end
+    end.
+
   (* simulate_gt: `if seed is not None: np.random.seed(seed)` (legacy: `if seed:`) *)
   Definition guard_fires (legacy : bool) (seed : option Z) : bool :=
     match seed with
@@ -90,6 +111,56 @@ End Generator.
 
 Arguments Ret {D Rq R} r.
 Arguments Draw {D Rq R} q k.
+
+(* ---------------- the replication loop of simulate_pt, with the simulator object
+   PhenoSimulator = (its generator, the columns appended so far).  One call of run()
+   makes one draw request on the simulator's generator and appends pheno g d: a
+   function of the call's inputs g (genetic component, prevalence: deterministic in
+   the genotypes and options) and of the noise d drawn IN THIS CALL. *)
+Section Replicates.
+  Variables (St D Rq G P : Type).
+  Variable draw : Rq -> St -> D * St.
+  Variable pheno : G -> D -> P.
+
+  Record sim := mksim { sim_rng : St; sim_cols : list P }.
+
+  Definition run_once (g : G) (q : Rq) (m : sim) : sim :=
+    let '(d, s') := draw q (sim_rng m) in mksim s' (sim_cols m ++ [pheno g d]).
+
+  (* several calls on ONE simulator, each with its own inputs and request *)
+  Fixpoint run_calls (calls : list (G * Rq)) (m : sim) : sim :=
+    match calls with
+    | [] => m
+    | (g, q) :: r => run_calls r (run_once g q m)
+    end.
+
+  (* simulate_pt: `for i in range(R): pt_sim.run(effects, h2, prevalence, normalize, env)` *)
+  Fixpoint run_reps (g : G) (q : Rq) (R : nat) (m : sim) : sim :=
+    match R with
+    | O => m
+    | Datatypes.S r => run_reps g q r (run_once g q m)
+    end.
+
+  (* the regression the last clause excludes: the genetic component is cached by call
+     signature and `pt += noise` is done in place on the cached array, so the cache
+     carries every earlier replicate's noise.  accum = the in-place addition,
+     out = what is appended (a copy, thresholded when prevalence is given) *)
+  Variable accum : G -> D -> G.
+  Variable out : G -> P.
+  Record csim := mkcsim { c_rng : St; c_cache : G; c_cols : list P }.
+  Definition run_once_cached (q : Rq) (m : csim) : csim :=
+    let '(d, s') := draw q (c_rng m) in
+    let g' := accum (c_cache m) d in mkcsim s' g' (c_cols m ++ [out g']).
+  Fixpoint run_reps_cached (q : Rq) (R : nat) (m : csim) : csim :=
+    match R with
+    | O => m
+    | Datatypes.S r => run_reps_cached q r (run_once_cached q m)
+    end.
+End Replicates.
+
+(* a scripted generator: the state is the list of values still to be returned *)
+Definition script_draw (_ : unit) (s : list Z) : Z * list Z :=
+  match s with [] => (0, []) | d :: r => (d, r) end.
 
 (* a concrete toy generator for the refutation examples: a linear congruential one *)
 Definition lcg_next (s : Z) : Z := (s * 1103515245 + 12345) mod 2147483648.
